@@ -352,7 +352,15 @@ def coq_props(rep, prop_file, timeout=600, allowed_axioms=()):
             ok = True
             detail = "closed"
         elif c.startswith("Axioms:"):
-            names = re.findall(r"(?m)^([A-Za-z0-9_.']+)\s*:", c)
+            names = []
+            for ln in c.split("\n")[1:]:
+                m = re.match(r"^([A-Za-z0-9_.']+)\s*:(?!:)", ln)
+                if m:
+                    names.append(m.group(1))
+                elif ln.startswith(" ") or not ln.strip():
+                    continue
+                else:
+                    break
             extra = [n for n in names if not kernel_primitive(n) and n not in allowed_axioms]
             ok = not extra
             detail = "axioms: " + ", ".join(names)
@@ -371,12 +379,26 @@ def coq_props(rep, prop_file, timeout=600, allowed_axioms=()):
     return ok_all
 
 
+_PRIMS = None
+
+
 def kernel_primitive(name):
-    # primitive floats / 63-bit ints and their specification axioms shipped
-    # with the standard library (Coq.Floats, Coq.Numbers.Cyclic.Int63)
-    return (name.startswith("PrimFloat.") or name.startswith("Uint63.") or name.startswith("PrimInt63.")
-            or name.startswith("FloatAxioms.") or name.startswith("Uint63Axioms.")
-            or name.startswith("Sint63.") or name.startswith("FloatOps."))
+    """primitive floats / 63-bit ints (declared with `Primitive` in the standard
+    library's PrimFloat.v / PrimInt63.v; Print Assumptions lists them but they
+    are kernel operations, not axioms of this development)"""
+    global _PRIMS
+    if _PRIMS is None:
+        _PRIMS = set()
+        for f in ("/usr/lib/ocaml/coq/theories/Floats/PrimFloat.v",
+                  "/usr/lib/ocaml/coq/theories/Numbers/Cyclic/Int63/PrimInt63.v"):
+            try:
+                for m in re.finditer(r"(?m)^Primitive\s+([A-Za-z0-9_']+)", open(f).read()):
+                    _PRIMS.add(m.group(1))
+            except OSError:
+                pass
+    parts = name.split(".")
+    return parts[-1] in _PRIMS and all(p in ("PrimFloat", "PrimInt63", "Uint63", "Floats", "Coq", "Numbers", "Cyclic", "Int63")
+                                       for p in parts[:-1])
 
 
 def coq_eval(name, body, timeout=600):
